@@ -471,7 +471,12 @@ func (g *Gen) execUnOp(v *ssa.UnOp, st State, reach string) {
 			g.safety("nil", "nil pointer dereference", v.Pos(), reach, not(app("=", lv.obj, "0")))
 		}
 		t := g.setVal(v, g.lvLoad(lv, st))
-		g.assumeTypeInv(t, st)
+		if lv.kind == lvGlobal && st[lv.heap] == "|"+lv.heap+"@in|" {
+			// a global not assigned by this function refers to objects that existed at entry
+			g.assumeTypeInv(t, State{})
+		} else {
+			g.assumeTypeInv(t, st)
+		}
 	case token.ARROW:
 		g.execRecv(v, st, reach)
 	default:
@@ -590,6 +595,7 @@ func (g *Gen) havocAllHeaps(st State) {
 	if g.curMods != nil {
 		g.curMods["*"] = SBool
 	}
+	g.recordWrite("*", nil)
 }
 
 func (g *Gen) execReturn(v *ssa.Return, st State, reach string) {
